@@ -18,6 +18,7 @@ def run(e, R, tier):
     R.run_rules(e, [
         L.r_wake,
         L.r_wake_lock,
+        L.r_wake_clear,
         L.r_own_resolve,
         L.r_drop_resolves,
         L.r_mgr_exit,
